@@ -147,9 +147,9 @@ RE_REACHED = re.compile(r'<<"TRACE_REACHED", (\d+), "OF", (\d+)>>')
 def parse_tla_set_of_notes(out):
     """Parse <<"TRACE_NOTES", {<<line, {"F-..", ...}>>, ...}>> into [(line, [ids])]."""
     notes = []
-    for m in re.finditer(r'<<"TRACE_NOTES", (\{.*?\})>>\n', out, re.S):
+    for m in re.finditer(r'<<\s*"TRACE_NOTES",\s*(\{.*?\})\s*>>\n', out, re.S):
         body = m.group(1)
-        for n in re.finditer(r'<<(\d+), \{([^}]*)\}>>', body):
+        for n in re.finditer(r'<<\s*(\d+),\s*\{([^}]*)\}\s*>>', body):
             ids = re.findall(r'"([^"]+)"', n.group(2))
             notes.append((int(n.group(1)), ids))
     # keep the richest print (the last state of the accepted behaviour prints everything)
